@@ -28,20 +28,22 @@ import (
 
 var runsSinceGC int
 
-// gcBetweenRuns collects garbage between runs only (every 8 runs, or earlier
+// gcBetweenRuns collects garbage between runs only (every 64 runs, or earlier
 // when the heap has grown).
 func gcBetweenRuns() {
 	runsSinceGC++
-	if runsSinceGC >= 8 {
+	if runsSinceGC >= 64 {
 		runsSinceGC = 0
 		runtime.GC()
 		return
 	}
-	var ms runtime.MemStats
-	runtime.ReadMemStats(&ms)
-	if ms.HeapAlloc > 256<<20 {
-		runsSinceGC = 0
-		runtime.GC()
+	if runsSinceGC%8 == 0 {
+		var ms runtime.MemStats
+		runtime.ReadMemStats(&ms)
+		if ms.HeapAlloc > 512<<20 {
+			runsSinceGC = 0
+			runtime.GC()
+		}
 	}
 }
 
